@@ -72,6 +72,11 @@ def row_alphabet(tname):
             elif name == spec.get("selfref"):
                 # includes a forward reference (row k=1 -> row 2) and backward ones
                 r[name] = (-1, 2, 0, 1)[k]
+            elif ty == U4:
+                # the top bit and the all-ones value: not representable as a signed int
+                r[name] = (j, 1 + j, 2 ** 31 + j, 2 ** 32 - 1)[k]
+            elif ty == I4:
+                r[name] = (j, 1 + j, 2 + j, 2 ** 31 - 2)[k]
             else:
                 r[name] = k + j
         for j, (name, ty) in enumerate(spec["ragged"]):
